@@ -18,16 +18,18 @@ NOT_CONSTRAINED = ['when a poll or WebSocket handler that is still in flight at 
 ASSUMPTIONS = ['cooperative scheduling only; virtual integer time']
 
 PI, PT = 3, 2
+LIMIT = 60          # max_http_buffer_size on both sides (bytes for POST bodies, characters/bytes for frames)
 STEPS = ('open-polling', 'open-websocket', 'poll', 'post-message', 'post-close', 'post-pong', 'post-upgrade-packet', 'post-type7',
          'post-garbage', 'post-17-packets', 'send-text', 'send-json', 'send-binary', 'disconnect-sid', 'upgrade-ok', 'upgrade-wrong-frame',
          'upgrade-garbage', 'upgrade-close-after-probe', 'ws-message', 'ws-binary', 'ws-close-packet', 'ws-type8', 'ws-drop',
          'advance-interval', 'advance-past-bound', 'bad-method', 'bad-transport', 'unknown-sid', 'bad-version', 'poll-second-session',
-         'post-binary', 'post-two-then-close', 'jsonp-poll', 'ws-pong')
+         'post-binary', 'post-two-then-close', 'jsonp-poll', 'ws-pong', 'post-nonascii-over-bytes', 'post-ascii-at-limit',
+         'post-ascii-over-limit', 'ws-frame-over-limit', 'ws-nonascii-frame')
 
 
 class _Side:
     def __init__(self, fl):
-        self.sut = mk(fl, async_handlers=False, ping_interval=PI, ping_timeout=PT, monitor_clients=True)
+        self.sut = mk(fl, async_handlers=False, ping_interval=PI, ping_timeout=PT, monitor_clients=True, max_http_buffer_size=LIMIT)
         self.peers = {}        # session index -> WsPeer currently attached
         self.reqs = []         # (label, Req) in issue order
         self.polls = {}        # session index -> pending poll
@@ -114,7 +116,8 @@ def _apply(side, step, n):
     elif step.startswith('post-'):
         body = {'post-message': '4m%d' % n, 'post-close': '1', 'post-pong': '3', 'post-upgrade-packet': '5', 'post-type7': '7',
                 'post-garbage': 'zz', 'post-17-packets': '\x1e'.join(['4x'] * 17), 'post-binary': 'bAAEC',
-                'post-two-then-close': '4a\x1e4b\x1e1'}[step]
+                'post-two-then-close': '4a\x1e4b\x1e1', 'post-nonascii-over-bytes': '4' + '\u0436' * 35,
+                'post-ascii-at-limit': '4' + 'x' * (LIMIT - 1), 'post-ascii-over-limit': '4' + 'x' * LIMIT}[step]
         req(step, sut.post(s0, body))
     elif step.startswith('send-'):
         data = {'send-text': 't%d' % n, 'send-json': {'n': n}, 'send-binary': bytes([n, 255])}[step]
@@ -144,7 +147,8 @@ def _apply(side, step, n):
         if step == 'ws-drop':
             p.close()
         else:
-            p.send({'ws-message': '4w%d' % n, 'ws-binary': b'\x01\x02', 'ws-close-packet': '1', 'ws-type8': '8', 'ws-pong': '3'}[step])
+            p.send({'ws-message': '4w%d' % n, 'ws-binary': b'\x01\x02', 'ws-close-packet': '1', 'ws-type8': '8', 'ws-pong': '3',
+                    'ws-frame-over-limit': '4' + 'y' * LIMIT, 'ws-nonascii-frame': '4' + '\u0436' * 35}[step])
     elif step == 'advance-interval':
         sut.run(until=sut.k.now + PI)
     elif step == 'advance-past-bound':
@@ -207,10 +211,10 @@ def _differential(a, b, c, d, n):
         A.sut.close()
 
 
-@cond(quick=dict(timeout=170, D=0, parts=dict(A=list(range(len(STEPS))))), thorough=dict(timeout=1500, D=12, parts=dict(A=list(range(len(STEPS))))))
+@cond(quick=dict(timeout=170, D=0, CMAX=22, parts=dict(A=list(range(len(STEPS))))), thorough=dict(timeout=1800, D=12, CMAX=len(STEPS), parts=dict(A=list(range(len(STEPS))))))
 def histories(a: int, b: int, c: int, d: int, n: int) -> str:
     """
-    pre: a == P.A and 0 <= b < len(STEPS) and 0 <= c < len(STEPS) and 0 <= d <= P.D and 1 <= n <= 4
+    pre: a == P.A and 0 <= b < len(STEPS) and 0 <= c < P.CMAX and 0 <= d <= P.D and 1 <= n <= 4
     pre: (n >= 4 or d == 0) and (n >= 3 or c == 0) and (n >= 2 or b == 0) and (n <= 3 or P.D > 0)
     post: _ == ''
     """
